@@ -49,6 +49,7 @@ CODES = {
         13: "(c) a re-read after Wait differs from the plan Wait returned",
         14: "plugin End without a Start (malformed log)",
         15: "(c) the plan Wait returned differs from the durable image in the failure reason only",
+        16: "(a) a sequence action is invoked while its sequence is not durably Running",
     },
     "mon_reads_diag": {1: "(d) a polled snapshot shows a Completed / Failed block, sequence or sequence action in another status"},
     "mon_explained_diag": {1: "a polled snapshot shows a cell that the durable history of that object does not explain "
@@ -66,6 +67,7 @@ NOT_COVERED = [
 
 
 MONS = ["mon_persist_diag", "mon_reads_diag", "mon_explained_diag"]
+INDEPENDENT = {9, 10, 11, 12, 13, 15}
 
 # ---- load disturbance: an invocation the plugin finished in time but whose answer reached the engine after the deadline ----
 # The harness logs End (and decides the outcome from ctx.Err()) just BEFORE the plugin returns; the answer then travels
@@ -154,11 +156,14 @@ def _classes(res):
             if (c["id"], m) in seen:
                 continue
             seen.add((c["id"], m))
-            got = set()
+            got, cascade = set(), False
             for code, idx in _codes(m, r[1 + MONS.index(m)]):
-                if code in got:
+                # codes 1-8 and 14 leave the per-action record of the monitor in a state from which follow-up codes
+                # cascade: only the first of them classifies the trace; the others are independent of what came before
+                if code in got or (cascade and code not in INDEPENDENT):
                     continue
                 got.add(code)
+                cascade = cascade or code not in INDEPENDENT
                 out.setdefault((m, code), []).append((c, r, idx))
     return out
 
